@@ -430,72 +430,72 @@ def print_semantics(w, S, R, h):
     below the region), then the cell goes under the cursor (insert mode shifts the rest right, last cell dropped; the
     last column is always overwritten) and the cursor advances or parks wrap-pending (only with auto-wrap on).
     -> (True, n) | (False, what)"""
-    cols, rows = 3, 3
     CH = 120
     n = 0
-    margins = sorted({(t, b) for t in range(rows) for b in range(t + 1, rows)} | {(0, rows - 1)})
-    for (tm, bm) in margins:
-        for row in range(rows):
-            for pending in (False, True):
-                for col in ([cols] if pending else range(cols)):
-                    for aw in (False, True):
-                        for ins in (False, True):
-                            me = symbolic_terminal(w, S, R, cols, rows, col, row)
-                            st = me[2]
-                            st[R["pending_wrap"]], st[R["auto_wrap_mode"]], st[R["insert_mode"]] = pending, aw, ins
-                            st[R["top_margin"]], st[R["bottom_margin"]] = tm, bm
-                            lines = st[S.active_buffer][2][S.lines_field]
-                            it = prims.VecInterp(w.facts)
-                            it.call_fn(h, [me, CH])
-                            newc = it.call_fn("cell::Cell::new", [CH, PEN])
-                            bl = it.call_fn("cell::Cell::blank", [PEN])
+    for cols, rows in ((3, 3), (2, 1), (1, 2), (1, 1)):
+      margins = sorted({(t, b) for t in range(rows) for b in range(t + 1, rows)} | {(0, rows - 1)})
+      for (tm, bm) in margins:
+          for row in range(rows):
+              for pending in (False, True):
+                  for col in ([cols] if pending else range(cols)):
+                      for aw in (False, True):
+                          for ins in (False, True):
+                              me = symbolic_terminal(w, S, R, cols, rows, col, row)
+                              st = me[2]
+                              st[R["pending_wrap"]], st[R["auto_wrap_mode"]], st[R["insert_mode"]] = pending, aw, ins
+                              st[R["top_margin"]], st[R["bottom_margin"]] = tm, bm
+                              lines = st[S.active_buffer][2][S.lines_field]
+                              it = prims.VecInterp(w.facts)
+                              it.call_fn(h, [me, CH])
+                              newc = it.call_fn("cell::Cell::new", [CH, PEN])
+                              bl = it.call_fn("cell::Cell::blank", [PEN])
 
-                            def show(c):
-                                if c == newc:
-                                    return "NEW"
-                                if c == bl:
-                                    return "blank"
-                                return c[1] if isinstance(c, tuple) and c[0] == "sym" else "?%r" % (c,)
-                            got = [([show(c) for c in l[2][S.cells_field].items], bool(l[2][S.wrap_field])) for l in lines.items]
-                            # ---- specification -----------------------------------------------------------------
-                            mat = [(["s0c%d" % c for c in range(cols)], False)] + [(["r%dc%d" % (r, c) for c in range(cols)], False) for r in range(rows)]
-                            c_, r_, p_ = col, row, pending
-                            if aw and p_:
-                                c_, p_ = 0, False
-                                if r_ == bm:
-                                    mat[1 + r_] = (mat[1 + r_][0], True)
-                                    blank_row = (["blank"] * cols, False)
-                                    if tm == 0:
-                                        mat = mat[:1 + bm + 1] + [blank_row] + mat[1 + bm + 1:]
-                                    else:
-                                        seg = mat[1 + tm + 1:1 + bm + 1] + [blank_row]
-                                        mat[tm] = (mat[tm][0], False) if True else mat[tm]      # the row above the region loses continuity
-                                        mat = mat[:1 + tm] + seg + mat[1 + bm + 1:]
-                                elif r_ < rows - 1:
-                                    mat[1 + r_] = (mat[1 + r_][0], True)
-                                    r_ += 1
-                            off = len(mat) - rows
-                            rowcells = list(mat[off + r_][0])
-                            if c_ + 1 >= cols:
-                                rowcells[cols - 1] = "NEW"
-                                if aw:
-                                    c_, p_ = cols, True
-                            else:
-                                if ins:
-                                    rowcells = rowcells[:c_] + ["NEW"] + rowcells[c_:cols - 1]
-                                else:
-                                    rowcells[c_] = "NEW"
-                                c_, p_ = c_ + 1, False
-                            mat[off + r_] = (rowcells, mat[off + r_][1])
-                            n += 1
-                            desc = "%dx%d, margins %d..%d, cursor (%d,%d), wrap-pending=%s, auto-wrap=%s, insert=%s" % (cols, rows, tm, bm, col, row, pending, aw, ins)
-                            if [g[0] for g in got] != [m[0] for m in mat]:
-                                return False, "%s: the screen becomes %s, the statement gives %s" % (desc, [g[0] for g in got], [m[0] for m in mat])
-                            gw = [g[1] for g in got]
-                            mw = [m[1] for m in mat]
-                            if gw != mw:
-                                return False, "%s: soft-wrap marks become %s, the statement gives %s" % (desc, gw, mw)
-                            cur = st[R["cursor"]][2]
-                            if (cur["col"], cur["row"], st[R["pending_wrap"]]) != (c_, r_, p_):
-                                return False, "%s: cursor / wrap-pending end as (%s,%s)/%s, the statement gives (%d,%d)/%s" % (desc, cur["col"], cur["row"], st[R["pending_wrap"]], c_, r_, p_)
+                              def show(c):
+                                  if c == newc:
+                                      return "NEW"
+                                  if c == bl:
+                                      return "blank"
+                                  return c[1] if isinstance(c, tuple) and c[0] == "sym" else "?%r" % (c,)
+                              got = [([show(c) for c in l[2][S.cells_field].items], bool(l[2][S.wrap_field])) for l in lines.items]
+                              # ---- specification -----------------------------------------------------------------
+                              mat = [(["s0c%d" % c for c in range(cols)], False)] + [(["r%dc%d" % (r, c) for c in range(cols)], False) for r in range(rows)]
+                              c_, r_, p_ = col, row, pending
+                              if aw and p_:
+                                  c_, p_ = 0, False
+                                  if r_ == bm:
+                                      mat[1 + r_] = (mat[1 + r_][0], True)
+                                      blank_row = (["blank"] * cols, False)
+                                      if tm == 0:
+                                          mat = mat[:1 + bm + 1] + [blank_row] + mat[1 + bm + 1:]
+                                      else:
+                                          seg = mat[1 + tm + 1:1 + bm + 1] + [blank_row]
+                                          mat[tm] = (mat[tm][0], False) if True else mat[tm]      # the row above the region loses continuity
+                                          mat = mat[:1 + tm] + seg + mat[1 + bm + 1:]
+                                  elif r_ < rows - 1:
+                                      mat[1 + r_] = (mat[1 + r_][0], True)
+                                      r_ += 1
+                              off = len(mat) - rows
+                              rowcells = list(mat[off + r_][0])
+                              if c_ + 1 >= cols:
+                                  rowcells[cols - 1] = "NEW"
+                                  if aw:
+                                      c_, p_ = cols, True
+                              else:
+                                  if ins:
+                                      rowcells = rowcells[:c_] + ["NEW"] + rowcells[c_:cols - 1]
+                                  else:
+                                      rowcells[c_] = "NEW"
+                                  c_, p_ = c_ + 1, False
+                              mat[off + r_] = (rowcells, mat[off + r_][1])
+                              n += 1
+                              desc = "%dx%d, margins %d..%d, cursor (%d,%d), wrap-pending=%s, auto-wrap=%s, insert=%s" % (cols, rows, tm, bm, col, row, pending, aw, ins)
+                              if [g[0] for g in got] != [m[0] for m in mat]:
+                                  return False, "%s: the screen becomes %s, the statement gives %s" % (desc, [g[0] for g in got], [m[0] for m in mat])
+                              gw = [g[1] for g in got]
+                              mw = [m[1] for m in mat]
+                              if gw != mw:
+                                  return False, "%s: soft-wrap marks become %s, the statement gives %s" % (desc, gw, mw)
+                              cur = st[R["cursor"]][2]
+                              if (cur["col"], cur["row"], st[R["pending_wrap"]]) != (c_, r_, p_):
+                                  return False, "%s: cursor / wrap-pending end as (%s,%s)/%s, the statement gives (%d,%d)/%s" % (desc, cur["col"], cur["row"], st[R["pending_wrap"]], c_, r_, p_)
     return True, n
